@@ -253,6 +253,18 @@ def RES_FRAC(K=0, horizon=5, ops=None):
     return spec(f'RESFRAC[K{K}]', devs, horizon, ops, K, pools={'r': 1})
 
 
+def RES_NOISE(K=0, horizon=6, ops=None):
+    '''Amounts that are not dyadic fractions (0.2, 0.1, 0.8 of a pool of 0.9): usage becomes 0.2 + 0.1 - 0.2 =
+    0.10000000000000003.  Only flow liveness and termination are looked at (whether a waiting machine is woken, whether the
+    run returns): exact pool arithmetic with such amounts is not something the properties settle.'''
+    devs = [src('S1', 1, budget=1), proc('P1', ['S1'], 3, resources={'power': 0.2}), sink('K1', ['P1']),
+            src('S2', 1.5, budget=1), proc('P2', ['S2'], 100, resources={'power': 0.1}), sink('K2', ['P2']),
+            src('S3', 2, budget=1), proc('P3', ['S3'], 1, resources={'power': 0.8}), sink('K3', ['P3'])]
+    if ops is None:
+        ops = [('fail', 'P1', 0), ('restore', 'P1')]
+    return spec(f'RESNOISE[K{K}]', devs, horizon, ops, K, pools={'power': 0.9})
+
+
 def RES_SER(K=0, horizon=6, r=1, ops=None):
     devs = [src('S', 1), proc('M1', ['S'], 1, resources={'r': 1}), buf('B', ['M1'], 2),
             proc('M2', ['B'], 2, resources={'r': 1}), sink('K', ['M2'])]
